@@ -14,6 +14,7 @@ import DriverLib.C05
 import DriverLib.C02
 import DriverLib.C08
 import DriverLib.C09
+import DriverLib.C10
 open Lean Drv
 
 def handlers : List (String → Json → Option (R Json)) := [
@@ -26,6 +27,7 @@ def handlers : List (String → Json → Option (R Json)) := [
   Drv.C02.handle,
   Drv.C08.handle,
   Drv.C09.handle,
+  Drv.C10.handle,
   fun _ _ => none]
 
 def dispatch (line : String) : Json :=
